@@ -55,20 +55,23 @@ Definition is_emit (o : outcome) : bool := match o with Emit _ => true | _ => fa
 Definition zq (z : Z) : Q := inject_Z z.
 
 (* ---- ExcitationLine (kind 1), RecombinationLine (kind 2), ThermalCXLine (kind 3) ------------- *)
-(* expected accessor calls, rate evaluation arguments and line-shape target species *)
+(* expected accessor calls, rate evaluation arguments, line-shape target species and the ion species whose
+   effective_temperature was sampled (thermal CX: the donors that are not skipped, in composition order) *)
 Definition line_expect (kind : Z) (l : line) (ne te : Q) (comp : composition) (out : outcome)
-  : list (list Z) * list (list Q) * list Z :=
+  : list (list Z) * list (list Q) * list Z * list (list Z) :=
   let e := l_elem l in let c := l_charge l in let t := l_trans l in
   let tc := if Z.eqb kind 1 then c else (c + 1)%Z in
   match comp_get comp e tc with
-  | None => ([], [], [])
+  | None => ([], [], [], [])
   | Some rcv =>
     if Z.eqb kind 3 then
       let ds := donors rcv comp in
+      let live := filter (fun d => pos (s_dens d)) ds in       (* if donor_density <= 0.0: continue *)
       (map (fun d => [3; s_elem d; s_charge d; e; tc; t]%Z) ds,
-       if is_emit out then map (fun d => [zq (s_elem d); zq (s_charge d); ne; te; s_temp d]) ds else [],
-       [e; tc])
-    else ([[kind; e; c; t]], if is_emit out then [[ne; te]] else [], [e; tc])
+       if is_emit out then map (fun d => [zq (s_elem d); zq (s_charge d); ne; te; s_temp d]) live else [],
+       [e; tc],
+       if is_emit out then map (fun d => [s_elem d; s_charge d]) live else [])
+    else ([[kind; e; c; t]], if is_emit out then [[ne; te]] else [], [e; tc], [])
   end.
 
 Definition line_model (kind : Z) (P : provider) (l : line) (ne te : Q) (comp : composition) : outcome :=
@@ -77,11 +80,13 @@ Definition line_model (kind : Z) (P : provider) (l : line) (ne te : Q) (comp : c
   else thermalcx_radiance P l ne te comp.
 
 Definition check_line (kind : Z) (g : stubcfg) (l : line) (ne te : Q) (comp : composition)
-           (i_out : outcome) (i_calls : list (list Z)) (i_evals : list (list Q)) (i_target : list Z) : bool :=
+           (i_out : outcome) (i_calls : list (list Z)) (i_evals : list (list Q)) (i_target : list Z)
+           (i_tsamp : list (list Z)) : bool :=
   let m := line_model kind (stub_provider g) l ne te comp in
   let mag := emitted (line_model kind (stub_provider (abs_cfg g)) l ne te (abs_comp comp)) in
-  let '(calls, evals, target) := line_expect kind l ne te comp m in
-  out_agree (line_tol * mag) m i_out && zll_eqb calls i_calls && qll_eqb evals i_evals && zlist_eqb target i_target.
+  let '(calls, evals, target, tsamp) := line_expect kind l ne te comp m in
+  out_agree (line_tol * mag) m i_out && zll_eqb calls i_calls && qll_eqb evals i_evals && zlist_eqb target i_target
+  && zll_eqb tsamp i_tsamp.
 
 (* ---- TotalRadiatedPower ------------------------------------------------------------------- *)
 Definition total_expect (g : stubcfg) (e c znum : Z) (ne te : Q) (comp : composition) (hyd : list Z) (out : outcome)
